@@ -3,6 +3,7 @@ use serde_json::Value;
 
 pub mod c01;
 pub mod c04;
+pub mod c05;
 pub mod c06;
 pub mod c07;
 pub mod c08;
@@ -19,6 +20,7 @@ pub fn all() -> Vec<Prop> {
     vec![
         Prop { id: "C01", level: "exploration", run: c01::run, replay: c01::replay },
         Prop { id: "C04", level: "exploration", run: c04::run, replay: c04::replay },
+        Prop { id: "C05", level: "exploration", run: c05::run, replay: c05::replay },
         Prop { id: "C06", level: "exploration", run: c06::run, replay: c06::replay },
         Prop { id: "C07", level: "exploration", run: c07::run, replay: c07::replay },
         Prop { id: "C08", level: "exploration", run: c08::run, replay: c08::replay },
